@@ -300,37 +300,45 @@ def rule_r3(chk, m):
                    m.loc(tys), facts={"bad": bad[:5]})
         except fin.NotFinite as e:
             chk.undecided("C09-R3", f"dates.{cname}[year/segment <-> serial]", str(e), m.loc(tys))
-    # keyword landings (structural forms on the mixin)
-    def ret_call(fn):
-        rets = [n for n in walk_no_nested(fn) if isinstance(n, ast.Return)]
-        return rets[0].value if len(rets) == 1 else None
+    # keyword landings by finite evaluation: start / end of the year, end of the previous year, previous period within the year
     mix = m.methods("RegularPeriodMixin")
-    forms = {
-        "create_soy": lambda a: unparse(a[0]) == "year" and unparse(a[1]) == "1",
-        "create_eoy": lambda a: unparse(a[0]) == "year" and unparse(a[1]) in ("'end'", "self.frequency.value"),
-        "create_eopy": lambda a: alg.equal(alg.ToIR()(a[0]), sub(sym("year"), num(1))) and unparse(a[1]) in ("self.frequency.value", "'end'"),
-    }
-    for name, pred in forms.items():
+    landings = {"create_soy": lambda y, s_, f_: ("ys", y, 1), "create_eoy": lambda y, s_, f_: ("ys", y, f_), "create_eopy": lambda y, s_, f_: ("ys", y - 1, f_)}
+    for name, want_fn in landings.items():
         f = mix.get(name)
         if f is None:
             raise AnalysisError(f"anchor vanished: RegularPeriodMixin.{name}")
         chk.saw(m, f"RegularPeriodMixin.{name}")
-        c = ret_call(f)
-        ok = False
-        if isinstance(c, ast.Call) and unparse(c.func) == "self.from_year_segment" and len(c.args) == 2:
-            src = unparse(f).replace(" ", "")
-            try:
-                ok = bool(pred(c.args)) and "year,*_=self.to_year_segment()" in src
-            except Undecided:
-                ok = None
-        chk.ob("C09-R3", f"dates.RegularPeriodMixin.{name}", ok, f"returns {unparse(c) if c is not None else '?'}", m.loc(f))
+        bad, n_ev = None, 0
+        try:
+            for fr in (1, 2, 4, 12):
+                for y in (-1, 0, 1999, 2024):
+                    for seg in range(1, fr + 1):
+                        funcs = {"self.to_year_segment": lambda y=y, seg=seg: (y, seg), "self.get_year": lambda y=y: y,
+                                 "self.from_year_segment": lambda yy, ss, fr=fr: ("ys", yy, fr if ss == "end" else ss)}
+                        got = fin.run_function(f, {}, funcs, env={"self": "SELF", "self.frequency.value": fr}, methods=mix)
+                        n_ev += 1
+                        if got != want_fn(y, seg, fr) and bad is None:
+                            bad = f"{name}() of segment {seg} of year {y} at {fr} periods a year lands on {got}, expected (year, segment) = {want_fn(y, seg, fr)[1:]}"
+            chk.ob("C09-R3", f"dates.RegularPeriodMixin.{name}", bad is None, bad or f"{n_ev} (frequency, year, segment) cases land on {name[7:]} of the right year", m.loc(f), sure=True)
+        except (fin.NotFinite, fin.Raised, TypeError) as ex:
+            chk.undecided("C09-R3", f"dates.RegularPeriodMixin.{name}", f"not evaluable: {ex}", m.loc(f))
     for cls in ("RegularPeriodMixin", "DailyPeriod"):
-        f = m.methods(cls).get("create_tty")
+        meths = m.methods(cls)
+        f = meths.get("create_tty")
         chk.saw(m, f"{cls}.create_tty")
-        c = ret_call(f)
-        src = unparse(f).replace(" ", "")
-        ok = isinstance(c, ast.IfExp) and unparse(c).replace(" ", "") == "self-1ifseg>1elseNone" and "_,seg=self.to_year_segment()" in src
-        chk.ob("C09-R3", f"dates.{cls}.create_tty", ok, "previous period unless the segment is 1 (then None)", m.loc(f))
+        bad, n_ev = None, 0
+        try:
+            for seg in (1, 2, 3, 12, 365):
+                funcs = {"self.to_year_segment": lambda seg=seg: (2021, seg), "type": lambda obj: _PeriodVal}
+                got = fin.run_function(f, {}, funcs, env={"self": _PeriodVal(5000), "self.frequency.value": 12}, methods=meths)
+                n_ev += 1
+                got = got.serial if isinstance(got, _PeriodVal) else got
+                want = None if seg == 1 else 4999
+                if got != want and bad is None:
+                    bad = f"create_tty() at segment {seg} gives {'the period ' + str(got - 5000) + ' away' if isinstance(got, int) else got}, expected {'None' if want is None else 'the previous period'}"
+            chk.ob("C09-R3", f"dates.{cls}.create_tty", bad is None, bad or "previous period unless the segment is 1 (then None)", m.loc(f), sure=True)
+        except (fin.NotFinite, fin.Raised, TypeError) as ex:
+            chk.undecided("C09-R3", f"dates.{cls}.create_tty", f"not evaluable: {ex}", m.loc(f))
     # Period.shift keyword dispatch
     f = m.func("Period.shift")
     chk.saw(m, "Period.shift")
@@ -633,18 +641,25 @@ def rule_r6(chk, m):
         uses = any(dotted(n) == "self._serials" for n in ast.walk(f)) or (name == "__getitem__" and "enumerate(self)" in unparse(f))
         own_range = any(isinstance(n, ast.Call) and dotted(n.func) == "range" and len(n.args) >= 2 for n in ast.walk(f))
         chk.ob("C09-R6", f"dates.Span.{name}", uses and not own_range, "enumerates through self._serials (one shared range)", m.loc(f))
-    f = sp["reverse"]
-    src = unparse(f).replace(" ", "")
-    ok = "self._start,self._end=(self._end,self._start)" in src and "self._step=-self._step" in src
-    chk.ob("C09-R6", "dates.Span.reverse", ok, "swaps ends and negates the step", m.loc(f))
-    f = sp["shift"]
-    src = unparse(f).replace(" ", "")
-    ok = "self._start+=by" in src and "self._end+=by" in src
-    chk.ob("C09-R6", "dates.Span.shift", ok, "both ends move by the same offset", m.loc(f))
-    f = sp["__add__"]
-    rets = [n for n in walk_no_nested(f) if isinstance(n, ast.Return)]
-    ok = len(rets) == 1 and unparse(rets[0].value).replace(" ", "") == "type(self)(self._start+offset,self._end+offset,self._step)"
-    chk.ob("C09-R6", "dates.Span.__add__", ok, "both ends move by the offset, step kept", m.loc(f))
+    # reverse / shift / __add__ by finite evaluation on spans with integer stand-ins for the periods (helpers of the class are followed)
+    def _span(a, b, st_):
+        return fin.FinObj(_start=a, _end=b, _step=st_, needs_resolve=False)
+    made = lambda *a, **k: ("span",) + tuple(a) + tuple(sorted(k.items()))
+    for name, args, check, text in (
+            ("reverse", (), lambda me, out: (me._start, me._end, me._step) == (20, 10, -2), "swaps ends and negates the step"),
+            ("shift", (3,), lambda me, out: (me._start, me._end, me._step) == (13, 23, 2), "both ends move by the same offset"),
+            ("__add__", (3,), lambda me, out: out in (("span", 13, 23, 2), ("span", 13, 23, ("step", 2))) and (me._start, me._end, me._step) == (10, 20, 2),
+             "both ends move by the offset, step kept, self untouched")):
+        f = sp[name]
+        chk.saw(m, f"Span.{name}")
+        me = _span(10, 20, 2)
+        try:
+            out = fin.run_function(f, dict(zip(params(f), (me,) + args)), funcs={"type": lambda o: made, "_sign": lambda x: (x > 0) - (x < 0)}, methods=sp)
+            ok = bool(check(me, out))
+            chk.ob("C09-R6", f"dates.Span.{name}", ok, text if ok else
+                   f"Span(10, 20, 2).{name}{args}: self is now ({me._start}, {me._end}, {me._step}), result {out}; expected: {text}", m.loc(f), sure=True)
+        except (fin.NotFinite, fin.Raised, TypeError, AttributeError) as ex:
+            chk.undecided("C09-R6", f"dates.Span.{name}", f"not finitely evaluable: {type(ex).__name__}: {ex}", m.loc(f))
     f = m.func("_sign")
     chk.saw(m, "_sign")
     try:
